@@ -12,10 +12,10 @@ HdrMal == [kind : {"hdr"}, pid : {3}, pay : {0, 5}, script : {"all", "one", "s2"
            mal : {"empty", "zero", "overlimit", "hugelen", "trunc-prefix", "trunc-body", "overlong-varint", "garbage-body", "empty-pid", "badutf8-pid", "wrong-field", "toolong-pid"}]
 Sizes == {"1", "2", "255", "256", "max-1", "max"}
 SizeSeqs == {<<a>> : a \in Sizes} \cup {<<a, b>> : a \in {"1", "256", "max"}, b \in Sizes} \cup {<<"2", "max", "1">>, <<"max", "max", "max">>, <<"1", "1", "1">>}
-Pkt == [kind : {"pkt"}, target : {"packetconn", "session"}, sizes : SizeSeqs, script : {"all", "one", "s3", "s5", "rand"},
+Pkt == [kind : {"pkt"}, target : {"packetconn", "session"}, sizes : SizeSeqs, script : {"all", "one", "s3", "s5", "rand", "alleof"},
         corrupt : {"none", "zero", "over", "max32", "trunc-header", "trunc-body"}, at : {1, 2}, buf : {"exact", "small"}]
 Writes == {<<"1">>, <<"7", "1">>, <<"2047">>, <<"2048">>, <<"2049">>, <<"5000">>, <<"1", "2048", "7">>, <<"4096", "1">>}
-Conn == [kind : {"conn"}, writes : Writes, script : {"all", "one", "s3", "rand"}, buf : {"1", "7", "2047", "2048", "4096"}]
+Conn == [kind : {"conn"}, writes : Writes, script : {"all", "one", "s3", "rand", "alleof", "s3eof", "randeof"}, buf : {"1", "7", "2047", "2048", "4096"}]
 PktOK(c) == c.at <= Len(c.sizes)
 Cases == Hdr \cup HdrMal \cup {c \in Pkt : PktOK(c)} \cup Conn
 Expected(c) ==
